@@ -489,6 +489,9 @@ class SimRLock:
     def _is_owned(self):
         return CUR is not None and self._owner is CUR.me()
 
+    def locked(self):
+        return self._owner is not None
+
 
 class SimEvent:
     def __init__(self):
